@@ -188,12 +188,13 @@ def finish_check(pid, tier, prop, base_seed, cfg, aggs, dead, t0, nworkers, scra
         else:
             new_items.append(item)
     # one replay per violation kind (plus up to 2 more distinct sites) keeps minimisation bounded
+    # one replay per violation class (kind + site), at most 3 per kind and 8 in total: keeps minimisation bounded
     seen_kinds = {}
     to_report = []
     for item in new_items:
         kd = item['violation']['kind']
         seen_kinds[kd] = seen_kinds.get(kd, 0) + 1
-        if seen_kinds[kd] <= 1 and len(to_report) < 6:
+        if seen_kinds[kd] <= 3 and len(to_report) < 8:
             to_report.append(item)
     for item in to_report:
         path = minimise_and_write(pid, item, scratch, args)
@@ -254,7 +255,7 @@ def minimise_and_write(pid, item, scratch, args):
     kind = item['violation']['kind']
     os.makedirs(os.path.join(ROOT, 'replays'), exist_ok=True)
     safe_kind = ''.join(c if c.isalnum() or c in '._-' else '_' for c in kind)
-    path = os.path.join(ROOT, 'replays', f"{pid}-{safe_kind}-{sc['index']}.json")
+    path = os.path.join(ROOT, 'replays', f"{pid}-{safe_kind}-{sc.get('index', 'x')}.json")
     orig = os.path.join(scratch, 'orig.json')
     json.dump(sc, open(orig, 'w'))
     final = {'scenario': sc, 'violation': item['violation'], 'minimized': False}
